@@ -189,6 +189,27 @@ def rejected_objects(fmt, rng):
         if any(sh.ncon > 1 and not (sh.ncon == 2 and list(sh.angmoms) == [0, 1]) for sh in d.obasis.shells):
             out.append(("generalized contractions", d, "PrepareDumpError", "returned"))
             break
+    # a two-fold contraction listed as P,S: the same functions as an SP shell in another order, but not an "SP shell" of any format
+    for _ in range(20):
+        d, f = wo.make(rng, fmt, nbasis_max=16, spin="restricted", contraction="sp", ghosts=ghosts, lmax=1, virtuals=True)
+        isp = [i for i, sh in enumerate(d.obasis.shells) if sh.ncon == 2 and list(sh.angmoms) == [0, 1]]
+        if not isp:
+            continue
+        import attrs
+
+        from iodata.basis import Shell
+
+        shells = list(d.obasis.shells)
+        sh = shells[isp[0]]
+        off = sum(x.nbasis for x in shells[:isp[0]])
+        shells[isp[0]] = Shell(sh.icenter, sh.angmoms[::-1].copy(), sh.kinds[::-1].copy(), sh.exponents.copy(), sh.coeffs[:, ::-1].copy())
+        rows = np.arange(d.obasis.nbasis)
+        rows[off:off + 4] = [off + 1, off + 2, off + 3, off]
+        mo = d.mo
+        d.obasis = attrs.evolve(d.obasis, shells=shells)
+        d.mo = attrs.evolve(mo, coeffs=mo.coeffs[rows].copy())
+        out.append(("P,S contraction", d, "PrepareDumpError", "returned"))
+        break
     # pure functions for WFN/WFX
     if fmt in ("wfn", "wfx"):
         d, _ = wo.make(rng, "fchk", nbasis_max=16, spin="restricted", contraction="segmented", ghosts=ghosts, lmax=2, virtuals=True,
